@@ -204,4 +204,130 @@ theorem parseQuery_blocks (blocks : List (Def × List Tok)) (hok : ∀ b ∈ blo
   refine ⟨(runQuery 0 inp).1, ofRun_ok.2 ⟨live_oof hl, live_err hl, rfl⟩, by simpa [runQuery, parseQueryDocument] using e1,
     by simpa [runQuery, parseQueryDocument] using e2⟩
 
+/-! ### `printQuery`: the definitions interleaved by position -/
+
+/-- the trees the unparser / parser pair is exact on: every definition is well-formed, the
+    unprinted parts of values are canonical (`ValueOK` …), and each of the two definition lists
+    is in the order of its recorded positions (so that the interleaving by position keeps them) -/
+def PrintableQuery (d : QueryDoc) : Prop :=
+  (∀ o ∈ d.ops, WFOperation o ∧ OpOK o) ∧ (∀ f ∈ d.frags, WFFragment f ∧ FragOK f) ∧
+    d.ops.Pairwise (fun a b => a.pos.start ≤ b.pos.start) ∧ d.frags.Pairwise (fun a b => a.pos.start ≤ b.pos.start)
+
+theorem opsOf_sublist {l1 l2 : List Def} (h : l1.Sublist l2) : (opsOf l1).Sublist (opsOf l2) := by
+  induction h with
+  | slnil => exact List.Sublist.slnil
+  | @cons l1 l2 x _ ih => cases x <;> simp [opsOf] <;> first | exact ih | exact ih.cons _
+  | @cons_cons l1 l2 x _ ih => cases x <;> simp [opsOf] <;> exact ih
+
+theorem fragsOf_sublist {l1 l2 : List Def} (h : l1.Sublist l2) : (fragsOf l1).Sublist (fragsOf l2) := by
+  induction h with
+  | slnil => exact List.Sublist.slnil
+  | @cons l1 l2 x _ ih => cases x <;> simp [fragsOf] <;> first | exact ih | exact ih.cons _
+  | @cons_cons l1 l2 x _ ih => cases x <;> simp [fragsOf] <;> exact ih
+
+theorem opsOf_perm_length {l1 l2 : List Def} (h : l1.Perm l2) : (opsOf l1).length = (opsOf l2).length := by
+  induction h with
+  | nil => rfl
+  | cons x _ ih => cases x <;> simp [opsOf, ih]
+  | swap x y l => cases x <;> cases y <;> simp [opsOf]
+  | trans _ _ ih1 ih2 => exact ih1.trans ih2
+
+theorem fragsOf_perm_length {l1 l2 : List Def} (h : l1.Perm l2) : (fragsOf l1).length = (fragsOf l2).length := by
+  induction h with
+  | nil => rfl
+  | cons x _ ih => cases x <;> simp [fragsOf, ih]
+  | swap x y l => cases x <;> cases y <;> simp [fragsOf]
+  | trans _ _ ih1 ih2 => exact ih1.trans ih2
+
+theorem opsOf_append (l1 l2 : List Def) : opsOf (l1 ++ l2) = opsOf l1 ++ opsOf l2 := by
+  induction l1 with
+  | nil => rfl
+  | cons x l ih => cases x <;> simp [opsOf, ih]
+
+theorem fragsOf_append (l1 l2 : List Def) : fragsOf (l1 ++ l2) = fragsOf l1 ++ fragsOf l2 := by
+  induction l1 with
+  | nil => rfl
+  | cons x l ih => cases x <;> simp [fragsOf, ih]
+
+theorem opsOf_inl (os : List OperationDef) : opsOf (os.map Sum.inl) = os := by
+  induction os <;> simp_all [opsOf]
+theorem opsOf_inr (fs : List FragmentDef) : opsOf (fs.map Sum.inr) = [] := by
+  induction fs <;> simp_all [opsOf]
+theorem fragsOf_inl (os : List OperationDef) : fragsOf (os.map Sum.inl) = [] := by
+  induction os <;> simp_all [fragsOf]
+theorem fragsOf_inr (fs : List FragmentDef) : fragsOf (fs.map Sum.inr) = fs := by
+  induction fs <;> simp_all [fragsOf]
+
+/-- the definitions of a document in the order `printQuery` writes them -/
+def sourceOrder (d : QueryDoc) : List Def :=
+  (d.ops.map Sum.inl ++ d.frags.map Sum.inr).mergeSort fun a b => decide ((defItem a).1 ≤ (defItem b).1)
+
+theorem printQuery_sourceOrder (d : QueryDoc) : printQuery d = (sourceOrder d).flatMap fun x => (defItem x).2 := by
+  have hitems : d.ops.map (fun o => (o.pos.start, printOperation o)) ++ d.frags.map (fun f => (f.pos.start, printFragment f))
+      = (d.ops.map (Sum.inl : OperationDef → Def) ++ d.frags.map Sum.inr).map defItem := by
+    simp [List.map_map, Function.comp_def, defItem]
+  unfold printQuery inSourceOrder sourceOrder
+  rw [hitems, ← List.map_mergeSort (f := defItem) (r := fun a b => decide ((defItem a).1 ≤ (defItem b).1))
+    (s := fun a b => decide (a.1 ≤ b.1)) (fun _ _ _ _ => rfl)]
+  simp [List.flatMap_def, List.map_map, Function.comp_def]
+
+/-- the interleaving by position keeps each of the two lists when each is sorted (stability) -/
+theorem sourceOrder_lists (d : QueryDoc) (h1 : d.ops.Pairwise fun a b => a.pos.start ≤ b.pos.start)
+    (h2 : d.frags.Pairwise fun a b => a.pos.start ≤ b.pos.start) :
+    opsOf (sourceOrder d) = d.ops ∧ fragsOf (sourceOrder d) = d.frags := by
+  have trans : ∀ a b c : Def, decide ((defItem a).1 ≤ (defItem b).1) = true → decide ((defItem b).1 ≤ (defItem c).1) = true →
+      decide ((defItem a).1 ≤ (defItem c).1) = true := by
+    intro a b c; simp only [decide_eq_true_eq]; omega
+  have total : ∀ a b : Def, (decide ((defItem a).1 ≤ (defItem b).1) || decide ((defItem b).1 ≤ (defItem a).1)) = true := by
+    intro a b; simp only [Bool.or_eq_true, decide_eq_true_eq]; omega
+  have hperm := List.mergeSort_perm (d.ops.map Sum.inl ++ d.frags.map Sum.inr)
+    (fun a b : Def => decide ((defItem a).1 ≤ (defItem b).1))
+  constructor
+  · have hsub : (d.ops.map (Sum.inl : OperationDef → Def)).Sublist (sourceOrder d) :=
+      List.sublist_mergeSort trans total (by
+        rw [List.pairwise_map]
+        exact h1.imp fun h => decide_eq_true h) (List.sublist_append_left _ _)
+    have := opsOf_sublist hsub
+    rw [opsOf_inl] at this
+    refine (this.eq_of_length ?_).symm
+    rw [sourceOrder, opsOf_perm_length hperm, opsOf_append, opsOf_inl, opsOf_inr]; simp
+  · have hsub : (d.frags.map (Sum.inr : FragmentDef → Def)).Sublist (sourceOrder d) :=
+      List.sublist_mergeSort trans total (by
+        rw [List.pairwise_map]
+        exact h2.imp fun h => decide_eq_true h) (List.sublist_append_right _ _)
+    have := fragsOf_sublist hsub
+    rw [fragsOf_inr] at this
+    refine (this.eq_of_length ?_).symm
+    rw [sourceOrder, fragsOf_perm_length hperm, fragsOf_append, fragsOf_inl, fragsOf_inr]; simp
+
+theorem mem_sourceOrder {d : QueryDoc} {x : Def} (h : x ∈ sourceOrder d) :
+    (∃ o ∈ d.ops, x = .inl o) ∨ (∃ f ∈ d.frags, x = .inr f) := by
+  have := (List.mergeSort_perm _ _).mem_iff.1 h
+  simp only [List.mem_append, List.mem_map] at this
+  rcases this with ⟨o, ho, rfl⟩ | ⟨f, hf, rfl⟩
+  · exact .inl ⟨o, ho, rfl⟩
+  · exact .inr ⟨f, hf, rfl⟩
+
+/-- **parse ∘ print**: if the significant tokens of `inp` are the unparse of a printable tree `d`,
+    the parser accepts `inp` and returns `d` up to positions -/
+theorem parseQuery_print (d : QueryDoc) (hp : PrintableQuery d) (inp : Bytes) (htok : tokensOf inp = some (printQuery d)) :
+    ∃ d', parseQuery 0 inp = .ok d' ∧ d'.erasePos = d.erasePos := by
+  obtain ⟨hops, hfrags, s1, s2⟩ := hp
+  let blocks : List (Def × List Tok) := (sourceOrder d).map fun x => (x, (defItem x).2)
+  have hflat : blocks.flatMap (·.2) = printQuery d := by
+    rw [printQuery_sourceOrder]; simp [blocks, List.flatMap_def, List.map_map, Function.comp_def]
+  have hfst : blocks.map (·.1) = sourceOrder d := by simp [blocks, List.map_map, Function.comp_def]
+  have hok : ∀ b ∈ blocks, BlockOK b := by
+    intro b hb
+    simp only [blocks, List.mem_map] at hb
+    obtain ⟨x, hx, rfl⟩ := hb
+    rcases mem_sourceOrder hx with ⟨o, ho, rfl⟩ | ⟨f, hf, rfl⟩
+    · exact ⟨(hops o ho).2, (hops o ho).1, .inl rfl⟩
+    · exact ⟨(hfrags f hf).2, (hfrags f hf).1, rfl⟩
+  obtain ⟨d', h1, h2, h3⟩ := parseQuery_blocks blocks hok inp (by rw [hflat]; exact htok)
+  obtain ⟨l1, l2⟩ := sourceOrder_lists d s1 s2
+  rw [hfst, l1] at h2
+  rw [hfst, l2] at h3
+  exact ⟨d', h1, by simp [QueryDoc.erasePos, h2, h3]⟩
+
 end Gql.Parser
